@@ -161,14 +161,19 @@ PATS = ["Ok(v)", "Err(e)", "Some(v)", "None", "Ok()", "Err()", "Ok(a, b)", "Err(
 def g_escape(r):
     """String-like literals whose escape sequences are followed by multi-byte characters, braces, quotes or the end of the literal:
     every diagnostic the lexer locates inside them must still fall on character boundaries."""
-    pre = r.choice(["", "", "b", "f", "r", "rb", "br", "fr", "B", "F"])
+    pre = r.choice(["", "", "b", "b", "b", "f", "r", "rb", "br", "fr", "B", "F"])
     qt = r.choice(['"', '"', "'", '"""'])
     body = ""
-    for _ in range(r.randint(1, 4)):
+    for _ in range(r.choice([1, 1, 2, 3, 4])):
         k = r.random()
         if k < 0.6:
-            body += "\\" + r.choice(list("xxxuuUN0123456789abfnrtv{}'\\\"") + ["u{", "x{", "N{"])
-            body += "".join(r.choice(MB + list("0123456789abcdefABCDEFgz{}") + MB) for _ in range(r.randint(0, 4)))
+            esc = r.choice(list("xxxxuuUN0123456789abfnrtv{}'\\\"") + ["u{", "x{", "N{"])
+            body += "\\" + esc
+            if esc[0] in "xuUN01234567" and r.random() < 0.5:
+                # the characters an escape wants to consume as digits are wide ones
+                body += "".join(r.choice(["€", "😀", "𝄞", "中", "é", "\u200b"]) for _ in range(r.randint(1, 3))) + r.choice(["", "1", "f", "g"])
+            else:
+                body += "".join(r.choice(MB + list("0123456789abcdefABCDEFgz{}") + MB) for _ in range(r.randint(0, 4)))
         elif k < 0.8:
             body += r.choice(MB) * r.randint(1, 3)
         else:
@@ -271,13 +276,13 @@ def main(tier, seed, replay=None):
         r = random.Random(rng.getrandbits(48))
         if k < 0.04:
             inputs.append(("numeric", g_numeric(r)))
-        elif k < 0.07:
+        elif k < 0.09:
             inputs.append(("escape", g_escape(r)))
-        elif k < 0.1:
-            inputs.append(("types", g_types(r)))
         elif k < 0.12:
+            inputs.append(("types", g_types(r)))
+        elif k < 0.2:
             inputs.append(("random", g_random(r)))
-        elif k < 0.27:
+        elif k < 0.32:
             inputs.append(("soup", g_soup(r)))
         elif k < 0.97:
             inputs.append(("mutant", mutate(r, r.choice(valid))))
